@@ -72,128 +72,110 @@ def leaves(interp_state, v, depth=0):
 KEEPS = {("mahf::components::swarm::pso::GlobalBestParticleUpdate", "mahf::components::swarm::pso::BestParticle<P, I>")}
 
 
-def evaluate_init(F, adt, trait, present=False):
-    """present=False: a state that does not hold the types yet; present=True: a USED state that already holds them (a
-    configuration run again on the state of an earlier run, a component initialised a second time)"""
+def evaluate_init(F, adt, trait, scenario="fresh"):
+    """init() evaluated over the typed store of statemodel (a chain of two scopes).  scenario: "fresh" - nothing is held
+    yet; "used" - the scope init runs in already holds every state type init touches (a configuration run again on the
+    state of an earlier run, a component initialised a second time); "enclosing" - only the ENCLOSING scope holds them
+    (the component sits inside a Scope whose surroundings use the same state types)."""
+    import statemodel
     fn = F.method(adt, "init", trait)
     a = F.adt(adt)
     fields = {x["name"]: x["i"] for x in a["variants"][0]["fields"]}
     me = Sym("self", {i: Sym("field:" + n) for n, i in fields.items()})
-    seen = []
+    store = None
+
+    def auto(ty):
+        if scenario == "fresh":
+            return {}
+        return {0 if scenario == "used" else 1: statemodel.shaped(F, ty, "old:" + ty.split("<")[0].split("::")[-1], store.heap)}
+    store = statemodel.Store(F, levels=2, auto=auto)
 
     def oracle(interp, env, f, args, t, bb, path):
-        k = f.get("key", "")
-        nm = f.get("name")
-        ty = (f.get("cgargs") or f.get("gargs") or [None])[0]
-        if k == "mahf::state::registry::StateRegistry::insert":
-            seen.append((ty, leaves(interp.mstate, load(interp, env, args[1]))))
-            return NONE
-        if k == "mahf::state::registry::StateRegistry::entry":
-            return Sym("entry:" + str(ty))
-        if k in ("mahf::state::registry::StateRegistry::contains", "mahf::state::registry::StateRegistry::has", "mahf::state::registry::StateRegistry::contains_at_top"):
-            return present
-        if k == "mahf::problems::VectorProblem::dimension":
+        if f.get("key", "") == "mahf::problems::VectorProblem::dimension":
             return 3
-        a0 = load(interp, env, args[0]) if args else None
-        if k == "mahf::state::registry::StateRegistry::set_value" and present:
-            seen.append((ty, leaves(interp.mstate, load(interp, env, args[1]))))
-            return some(Sym("old-value"))
-        if k.startswith("mahf::state::registry::entry::Entry::") and isinstance(a0, Sym) and a0.tag.startswith("entry:") and present:
-            # an occupied entry: or_insert* keep what is there; and_modify* run the caller's closure on it (not followed: undecided)
-            if nm in ("or_insert", "or_insert_with", "or_default"):
-                return Ref(0, [], frame="root")
-            return TOP
-        if k.startswith("mahf::state::registry::entry::Entry::or_") and isinstance(a0, Sym) and a0.tag.startswith("entry:"):
-            # the vacant case: what would be inserted
-            if nm == "or_insert":
-                v = load(interp, env, args[1])
-            elif nm == "or_insert_with":
-                outs = interp.call_value(args[1], [])
-                v = outs[0][0] if outs and len(outs) == 1 and outs[0][2] == "return" else TOP
-            else:
-                v = Sym("default")
-            seen.append((a0.tag[6:], leaves(interp.mstate, v) if nm != "or_default" else []))
-            return Ref(0, [], frame="root")
         return TOP
-    inl = lambda k: (k.startswith("mahf::") or k.startswith("<mahf::")) and not k.startswith("mahf::state::registry::") and not k.startswith("mahf::state::State::")
-    it = install(Interp(fn.body, chain(oracle, coll_oracle, std_oracle), [me, Sym("problem"), Sym("state")], facts=F, inline=inl, max_visits=6))
+    inl = lambda k: statemodel.inline(k) or ((k.startswith("mahf::") or k.startswith("<mahf::")) and not k.startswith("mahf::state::registry::") and not k.startswith("<mahf::state::registry::") and not k.startswith("mahf::state::State::"))
+    it = install(Interp(fn.body, chain(oracle, store, coll_oracle, std_oracle), [me, Sym("problem"), Sym("state")], facts=F, inline=inl, max_visits=6))
     it.init_state = {"heap": {}, "next_vec": 0}
-    return fn, it.run(), seen
+    store.install(it)
+    return fn, it.run(), store
 
 
 def _expand(exp):
-    return [Sym("field:" + x[1]) if isinstance(x, tuple) else x for x in exp[1]]
+    if exp[0] == "field":
+        return [Sym("field:" + exp[1])]
+    if exp[0] == "const":
+        return [exp[1]]
+    if exp[0] == "multiset":
+        return [Sym("field:" + x[1]) if isinstance(x, tuple) else x for x in exp[1]]
+    return []
 
 
 def _describe(exp):
     import collections
-    c = collections.Counter("the configured `%s`" % x[1] if isinstance(x, tuple) else repr(x) for x in exp[1])
-    return ", ".join("%s x %s" % (n, k) if n > 1 else k for k, n in c.items())
+    if exp[0] == "field":
+        return "built from exactly the configured `%s`" % exp[1]
+    if exp[0] == "const":
+        return "the constant %r" % (exp[1],)
+    if exp[0] == "multiset":
+        c = collections.Counter("the configured `%s`" % x[1] if isinstance(x, tuple) else repr(x) for x in exp[1])
+        return "exactly the values " + ", ".join("%s x %s" % (n, k) if n > 1 else k for k, n in c.items())
+    return "empty / default"
+
+
+def _same(lv, exp):
+    return sorted(map(str, lv)) == sorted(map(str, _expand(exp)))
 
 
 def check_for(ctx, prop):
+    import statemodel
     F = ctx.facts
     n = 0
     for adt, trait, spec in SPEC.get(prop, []):
-        fn, paths, seen = evaluate_init(F, adt, trait)
-        own = adt + "<" + ", ".join(p["name"] for p in (F.fn(fn.key).generics or {}).get("params", []) if p.get("kind") != "lifetime" and p["name"] in ("I",)) + ">"
-        gen_own = fn.impl_self_ty or adt
-        want = {}
-        for ty, exp in spec.items():
-            want[ty.replace("Self", gen_own)] = exp
-        good = len(paths) == 1 and paths[0].end == "return" and isinstance(paths[0].ret, Agg) and paths[0].ret.variant == "Ok"
-        why = "" if good else "init does not return Ok on a single path (%s)" % [p.end for p in paths]
-        got = {}
-        for ty, lv in seen:
-            got.setdefault(ty, []).append(lv)
-        if good and set(got) != set(want):
-            good = False
-            why = "inserts %s, expected %s" % (sorted(map(str, got)), sorted(want))
-        if good:
-            for ty, exp in want.items():
-                vals = got[ty]
-                if len(vals) != 1:
-                    good, why = False, "inserts %s %d times" % (ty, len(vals))
-                    break
-                lv = vals[0]
-                if exp[0] == "multiset":
-                    okv = sorted(map(str, lv)) == sorted(map(str, _expand(exp)))
-                    desc = "exactly the values %s" % _describe(exp)
-                elif exp[0] == "field":
-                    okv = lv == [Sym("field:" + exp[1])]
-                    desc = "built from exactly the configured `%s`" % exp[1]
-                elif exp[0] == "const":
-                    okv = lv == [exp[1]]
-                    desc = "the constant %r" % (exp[1],)
-                else:
-                    okv = lv == []
-                    desc = "empty / default"
-                if not okv:
-                    good, why = False, "inserts %s holding %s, expected %s" % (ty, [str(x) for x in lv], desc)
-                    break
-        n += 1
-        ctx.check(good, prop + ".INIT", fn.key, "init-installs-configured-state", why or "ok", detail=str(sorted(got)), loc=fn.loc())
-        # initialising again on a USED state resets every listed state to its configured / empty value (a second run starts like
-        # the first), except state the component documents as kept
-        fn2, paths2, seen2 = evaluate_init(F, adt, trait, present=True)
-        good2 = len(paths2) == 1 and paths2[0].end == "return" and isinstance(paths2[0].ret, Agg) and paths2[0].ret.variant == "Ok"
-        why2 = "" if good2 else "init on a used state does not return Ok on a single path (%s)" % [p.end for p in paths2]
-        if good2:
-            got2 = {}
-            for ty, lv in seen2:
-                got2.setdefault(ty, []).append(lv)
-            for ty, exp in want.items():
-                if (adt, ty) in KEEPS:
-                    continue
-                lvs = got2.get(ty, [])
-                exp_l = [Sym("field:" + exp[1])] if exp[0] == "field" else [exp[1]] if exp[0] == "const" else _expand(exp) if exp[0] == "multiset" else []
-                if [sorted(map(str, l)) for l in lvs] != [sorted(map(str, exp_l))]:
-                    good2, why2 = False, "on a state that already holds %s (left by an earlier run / initialisation) init %s; expected it to be reset to %s" % (
-                        ty, "leaves it as it is" if not lvs else "stores %s" % [[str(x) for x in l] for l in lvs], "the configured `%s`" % exp[1] if exp[0] == "field" else _describe(exp) if exp[0] == "multiset" else "its initial value")
-                    break
-        ctx.check(good2, prop + ".INIT", fn.key, "init-resets-used-state", why2 or "ok", loc=fn.loc())
-    ctx.count("init_specs", n)
-    ctx.floor(prop + ".INIT", "init specifications", n, len(SPEC.get(prop, [])))
+        fn0 = F.method(adt, "init", trait)
+        gen_own = fn0.impl_self_ty or adt
+        want = {ty.replace("Self", gen_own): exp for ty, exp in spec.items()}
+        for scenario, item in (("fresh", "init-installs-configured-state"), ("used", "init-resets-used-state"), ("enclosing", "init-shadows-enclosing-state")):
+            fn, paths, store = evaluate_init(F, adt, trait, scenario)
+            good = len(paths) == 1 and paths[0].end == "return" and isinstance(paths[0].ret, Agg) and paths[0].ret.variant == "Ok"
+            where = {"fresh": "on a state that holds none of its state yet", "used": "on a state whose current scope already holds its state (left by an earlier run / initialisation)",
+                     "enclosing": "inside a scope whose ENCLOSING scope holds state of the same types"}[scenario]
+            why = "" if good else "%s init does not return Ok on a single path (%s)" % (where, [p.end for p in paths])
+            detail = ""
+            if good:
+                p = paths[0]
+                held = {ty: store.holders(p, ty) for ty in store.types()}
+                detail = str(sorted((ty.split("::")[-1], ls) for ty, ls in held.items()))
+                if scenario == "fresh":
+                    got = sorted(ty for ty, ls in held.items() if ls)
+                    if got != sorted(want):
+                        good, why = False, "%s init leaves %s in the state, expected %s" % (where, got, sorted(want))
+                for ty, exp in want.items():
+                    if not good:
+                        break
+                    if (adt, ty) in KEEPS and scenario != "fresh":
+                        continue
+                    ls = held.get(ty, [])
+                    want_levels = [0] if scenario != "enclosing" else [0, 1]
+                    if ls != want_levels:
+                        good, why = False, "%s init leaves %s held by scope level(s) %s (0 = the scope init runs in, 1 = the enclosing one); expected %s%s" % (
+                            where, ty, ls, want_levels, " - a value of its own that shadows the enclosing one" if scenario == "enclosing" else "")
+                        break
+                    lv = leaves(p.mstate, store.value(p, ty, 0))
+                    if not _same(lv, exp):
+                        good, why = False, "%s init leaves %s holding %s, expected %s%s" % (
+                            where, ty, [str(x) for x in lv], _describe(exp), "" if scenario == "fresh" else " (the state is reset: a second run starts like the first)")
+                        break
+                    if scenario == "enclosing":
+                        outer = leaves(p.mstate, store.value(p, ty, 1))
+                        orig = leaves({"heap": store.heap}, store.init[store.homes[(ty, 1)]])
+                        if sorted(map(str, outer)) != sorted(map(str, orig)):
+                            good, why = False, "%s init changes the ENCLOSING scope's %s to %s; a component inside a scope must not touch the state of its surroundings" % (where, ty, [str(x) for x in outer])
+                            break
+            n += 1
+            ctx.check(good, prop + ".INIT", fn.key, item, why or "ok", detail=detail, loc=fn.loc())
+    ctx.count("init_scenarios", n)
+    ctx.floor(prop + ".INIT", "init scenarios", n, 3 * len(SPEC.get(prop, [])))
 
 
 # ------------------------------------------------------------------ require(): the documented requirements are checked and reported
